@@ -62,6 +62,7 @@ class Explorer:
                 h2 = hist + [op]
                 if got != want:
                     rec.violation("operation-result/" + _sig(op, got, want), "history", {"hist": h2}, got, want)
+                    continue   # the model no longer tracks the implementation: nothing below this transition is judged
                 snap2 = self.snapshot()
                 k2 = tree_key(snap2)
                 if isinstance(want, list) and want[:1] == ["EXC"] and k2 != tree_key(snap):
